@@ -110,3 +110,13 @@ Theorem C14_cross_from_source : forall p1 p2 p3,
 Proof. exact gen_CrossProduct_eq. Qed.
 Print Assumptions C14_area_source_exact.
 Print Assumptions C14_multiply_from_source.
+
+(* K3 tripwire for the hand-written models this file's theorems are about: the source text of the modelled functions is
+   the text the models were last reconciled with (Model/Fingerprints.v, written by tools/update_fingerprints.sh after clean
+   correspondence runs; Gen/Fingerprints_gen.v is regenerated from /repo on every run).  When this breaks, the functions
+   were edited: the check widens its search for a failing input and reports the broken obligation either way. *)
+From Coq Require Import String.
+From Clip Require Import Gen.Fingerprints_gen Model.Fingerprints.
+Theorem C14_modelled_source_unchanged :
+  fps_agree gen_fingerprints ["PointInPolygon"; "StripDuplicates"; "IsPositive64"; "Area64"; "GetBounds64"; "getBounds"]%string = true.
+Proof. vm_compute. reflexivity. Qed.
